@@ -309,8 +309,22 @@ pub fn replay(args: &Args) {
             let c = csum(&ipb[..20]);
             ipb[10..12].copy_from_slice(&c.to_be_bytes());
         }
-        let hl = if v == 4 { 20 } else { 40 };
+        if corrupt == "opts" || corrupt == "ip-opt" {
+            // four octets of options (end-of-list padding) behind the fixed header: IHL 6, lengths and checksum adjusted
+            let tail = ipb.split_off(20);
+            ipb.extend_from_slice(&[0, 0, 0, 0]);
+            ipb.extend_from_slice(&tail);
+            ipb[0] = 0x46;
+            let tl = ipb.len() as u16;
+            ipb[2..4].copy_from_slice(&tl.to_be_bytes());
+            ipb[10] = 0;
+            ipb[11] = 0;
+            let c = csum(&ipb[..24]);
+            ipb[10..12].copy_from_slice(&c.to_be_bytes());
+        }
+        let hl = if v == 4 { if ipb[0] == 0x46 { 24 } else { 20 } } else { 40 };
         match corrupt {
+            "ip-opt" => ipb[21] ^= 0x10,                        // inside the options: the header checksum covers them
             "ip-hdr" => ipb[8] ^= 0x10,                         // TTL bit: header checksum no longer verifies
             "l4" => {
                 let i = ipb.len() - 1;
